@@ -131,7 +131,7 @@ def print_assumptions(module, theorems):
             cur = None
         elif cur is not None:
             m = re.match(r"^([A-Za-z_][\w.']*)\s*:", line)
-            if m:
+            if m and m.group(1) not in ("Axioms", "Closed"):
                 res[cur].append(m.group(1))
     return res, out
 
